@@ -116,12 +116,24 @@ def _char_map(node):
         return None
     comp = node.args[0]
     if not (isinstance(comp, (ast.ListComp, ast.GeneratorExp)) and len(comp.generators) == 1
-            and isinstance(comp.generators[0].target, ast.Name) and F.is_name(comp.elt, comp.generators[0].target.id)
-            and len(comp.generators[0].ifs) == 1):
+            and isinstance(comp.generators[0].target, ast.Name) and len(comp.generators[0].ifs) == 1):
+        return None
+    var_ = comp.generators[0].target.id
+
+    def image(e_, ch):
+        # the element as a function of the character: the character itself, a constant, or a conditional on `c == 'x'`
+        if F.is_name(e_, var_):
+            return ch
+        if isinstance(e_, ast.Constant) and isinstance(e_.value, str):
+            return e_.value
+        if isinstance(e_, ast.IfExp) and isinstance(e_.test, ast.Compare) and len(e_.test.ops) == 1 and isinstance(e_.test.ops[0], (ast.Eq, ast.NotEq)) \
+                and F.is_name(e_.test.left, var_) and isinstance(e_.test.comparators[0], ast.Constant):
+            hit = (ch == e_.test.comparators[0].value) == isinstance(e_.test.ops[0], ast.Eq)
+            return image(e_.body if hit else e_.orelse, ch)
         return None
     t = comp.generators[0].ifs[0]
     if not (isinstance(t, ast.Compare) and len(t.ops) == 1 and isinstance(t.ops[0], ast.In)
-            and F.is_name(t.left, comp.elt.id)):
+            and F.is_name(t.left, var_)):
         return None
     try:
         chars = ast.literal_eval(t.comparators[0])
@@ -129,7 +141,9 @@ def _char_map(node):
         return None
     m = {}
     for c in chars:
-        img = c
+        img = image(comp.elt, c)
+        if img is None:
+            return None
         for a, b in reps:
             img = img.replace(a, b)
         m[c] = img
